@@ -1,6 +1,71 @@
-/- C04 — statements are being added as the proofs land (see DESIGN.md §6). -/
+/-
+  C04 — realistic id populations split in proportion, independently across salts.
+  "Statistically consistent" is not a theorem about any function (it is false for
+  adversarial populations); what is provable is the *reduction* of the property to the
+  single empirical fact that MD5 positions of realistic ids are equidistributed:
+  group counts are a function of the multiset of hash positions only, each group is
+  exactly an interval of the 2^32 grid whose length is w_i/T of the grid to within one
+  point, and the whole key (salt first) is what is hashed.  The premise is measured by
+  the check (chi-square on real assignments), labelled as a statistical test.
+-/
+import Pyab.Properties.C03
+import Pyab.Properties.C01_key
 namespace Pyab.Properties
+open Pyab Pyab.Spec
 
-theorem C04_placeholder : True := trivial
+/-- how many units of a population (given by their hash positions) fall in group `i` -/
+def groupCount (w : List Nat) (i : Nat) (hs : List Nat) : Nat :=
+  (hs.filter fun h => decide (IsSpecIdx w h i)).length
+
+/-- group counts depend on the multiset of hash positions only -/
+theorem C04_counts_from_positions (w : List Nat) (i : Nat) (hs hs' : List Nat) (h : hs.Perm hs') :
+    groupCount w i hs = groupCount w i hs' :=
+  (h.filter _).length_eq
+
+/-- group `i` receives exactly the units whose position lies in the grid interval
+    `[⌈S_{i-1}·2^32/T⌉, ⌈S_i·2^32/T⌉)` -/
+theorem C04_group_is_interval (w : List Nat) (i : Nat) (hs : List Nat) (hi : i < w.length) (hpos : 0 < total w) :
+    groupCount w i hs =
+      (hs.filter fun h => decide ((prefixSum w i * 2 ^ 32 + total w - 1) / total w ≤ h
+        ∧ h < (prefixSum w (i + 1) * 2 ^ 32 + total w - 1) / total w)).length := by
+  unfold groupCount
+  congr 1
+  apply List.filter_congr
+  intro h _
+  have := C03_share w h i hpos
+  simp only [decide_eq_decide]
+  constructor
+  · intro hx; exact (this.mp hx).2
+  · intro hx; exact this.mpr ⟨hi, hx⟩
+
+/-- if the positions of a population are equidistributed over grid intervals up to an error
+    `E` (premise, measured not proved), every group's count is within `E` of its share -/
+theorem C04_equidistribution_suffices (w : List Nat) (i : Nat) (hs : List Nat) (E : Nat)
+    (hi : i < w.length) (hpos : 0 < total w)
+    (hequi : ∀ lo hi', lo ≤ hi' →
+      ((hs.filter fun h => decide (lo ≤ h ∧ h < hi')).length * 2 ^ 32 ≤ hs.length * (hi' - lo) + E) ∧
+      (hs.length * (hi' - lo) ≤ (hs.filter fun h => decide (lo ≤ h ∧ h < hi')).length * 2 ^ 32 + E)) :
+    let lo := (prefixSum w i * 2 ^ 32 + total w - 1) / total w
+    let hi' := (prefixSum w (i + 1) * 2 ^ 32 + total w - 1) / total w
+    groupCount w i hs * 2 ^ 32 ≤ hs.length * (hi' - lo) + E ∧
+    hs.length * (hi' - lo) ≤ groupCount w i hs * 2 ^ 32 + E := by
+  intro lo hi'
+  rw [C04_group_is_interval w i hs hi hpos]
+  have hle : lo ≤ hi' := by
+    apply Nat.div_le_div_right
+    have : prefixSum w i ≤ prefixSum w (i + 1) := by
+      unfold prefixSum
+      rw [List.take_add_one]
+      simp
+    have := Nat.mul_le_mul_right (2 ^ 32) this
+    omega
+  exact hequi lo hi' hle
+
+/-- every byte of the salt enters the hash, salt first: two salts give different MD5 inputs -/
+theorem C04_whole_key_hashed (s1 s2 : String) (names : List String) (env : Env) (k1 k2 : String)
+    (h1 : keyOf s1 names env = .ok k1) (h2 : keyOf s2 names env = .ok k2) (hne : s1 ≠ s2) : k1 ≠ k2 :=
+  fun hk => hne (C09_key_varies_with_salt s1 s2 names env k1 k2 h1 h2 hk)
+
+example : groupCount [1, 1] 0 [0, 2 ^ 31, 2 ^ 31 - 1, 5] = 3 := by decide
 
 end Pyab.Properties
